@@ -122,74 +122,19 @@ def run_case(case):
         rk = case["read"]
         password = sess.get("password")
         # ---- reopen
-        with Seams(fs=fs, blocksize=rk["block"], memlimit=rk["chunk"], inline_threads=True):
-            if case["target"] == "mv":
-                import multivolumefile
+        from simkit.steps import StepBudgetExceeded, StepCounter
 
-                target = multivolumefile.MultiVolume(mvpath, mode="rb")
-                closer = target.close
-            elif rk["kind"] == "path":
-                target, closer = rw.SIM_PATH, (lambda: None)
-                image = fs.get(rw.SIM_PATH).snapshot()
-            else:
-                image = fs.get(rw.SIM_PATH).snapshot()
-                target = SimRaw(fs.get(rw.SIM_PATH), readable=True)
-                closer = target.close
-            try:
-                try:
-                    z = py7zr.SevenZipFile(target, "r", password=password)
-                except Exception as e:
-                    viol("reopen_failed", "open", "archive written with %s does not open: %r" % (fam, e), error=type(e).__name__)
-                    return res
-                try:
-                    names = z.getnames()
-                    if names != want_names:
-                        viol("names_differ", "getnames", "written %r, listed %r" % (want_names, names))
-                    fac = rw.make_factory()
-                    z.extractall(factory=fac)
-                    got = fac.result()
-                    if got != want:
-                        missing = [n for n in want if n not in got]
-                        extra_ = [n for n in got if n not in want]
-                        diff = [n for n in want if n in got and got[n] != want[n]]
-                        kind = "missing" if missing else ("extra" if extra_ else "bytes_differ")
-                        viol("content_differs", "extractall(factory)", "missing=%r extra=%r differing=%r (lens want %r got %r)" % (
-                            missing[:3], extra_[:3], diff[:3], [len(want[n]) for n in diff[:3]], [len(got[n]) for n in diff[:3]]), kind=kind)
-                    if any(len(d) for d in want.values()) and got == want:
-                        nontrivial = True
-                    else:
-                        nontrivial = False
-                    if case.get("path_extract") and _fs_safe(want_names) and case["target"] != "mv":
-                        z.reset()
-                        out = os.path.join(driver.worker_scratch(), "c01x")
-                        shutil.rmtree(out, ignore_errors=True)
-                        os.makedirs(out)
-                        try:
-                            z.extractall(path=out)
-                            for n, d in model:
-                                p = os.path.join(out, n)
-                                try:
-                                    with open(p, "rb") as f:
-                                        b = f.read()
-                                except OSError as e:
-                                    viol("content_differs", "extractall(path)", "member %r not on disk: %r" % (n, e), kind="missing")
-                                    break
-                                if b != d:
-                                    viol("content_differs", "extractall(path)", "member %r differs on disk (%d vs %d bytes)" % (n, len(b), len(d)), kind="bytes_differ")
-                                    break
-                            res["probes"]["path_extract"] = 1
-                        finally:
-                            shutil.rmtree(out, ignore_errors=True)
-                except Exception as e:
-                    viol("read_failed", "read", "archive written with %s fails on read: %r" % (fam, e), error=type(e).__name__)
-                    nontrivial = False
-                finally:
-                    try:
-                        z.close()
-                    except Exception:
-                        pass
-            finally:
-                closer()
+        budget = rw.read_budget(len(fs.get(rw.SIM_PATH).data) if rw.SIM_PATH in fs.files else 100000, sum(len(d) for d in want.values()))
+        sc = StepCounter(budget)
+        try:
+            with sc:
+                _reopen_and_compare(case, fs, py7zr, rk, password, mvpath if case["target"] == "mv" else None, viol, want, want_names, model, res, state := {})
+        except StepBudgetExceeded:
+            viol("call_never_returns", "read", "reading the archive written with %s exceeded %d steps (spin)" % (fam, budget))
+            state = {"nontrivial": False, "image": None}
+        res["sim_steps"] = sc.steps
+        image = state.get("image")
+        nontrivial = state.get("nontrivial", False)
         sizes = sorted({_size_class(len(d), knobs["block"]) for _, d in model})
         sig = [fam, sess["header"], case["target"], knobs["block"], "small" if rk["chunk"] < 4096 else "big", min(len(model), 3), sizes]
         res["sigs"].append((sig, nontrivial))
@@ -203,6 +148,82 @@ def run_case(case):
     finally:
         if scratch:
             shutil.rmtree(scratch, ignore_errors=True)
+
+
+def _reopen_and_compare(case, fs, py7zr, rk, password, mvpath, viol, want, want_names, model, res, state):
+    image = None
+    nontrivial = False
+    fam = gen.chain_family(case["session"].get("chain"))
+    with Seams(fs=fs, blocksize=rk["block"], memlimit=rk["chunk"], inline_threads=True):
+        if case["target"] == "mv":
+            import multivolumefile
+
+            target = multivolumefile.MultiVolume(mvpath, mode="rb")
+            closer = target.close
+        elif rk["kind"] == "path":
+            target, closer = rw.SIM_PATH, (lambda: None)
+            image = fs.get(rw.SIM_PATH).snapshot()
+        else:
+            image = fs.get(rw.SIM_PATH).snapshot()
+            target = SimRaw(fs.get(rw.SIM_PATH), readable=True)
+            closer = target.close
+        try:
+            try:
+                z = py7zr.SevenZipFile(target, "r", password=password)
+            except Exception as e:
+                viol("reopen_failed", "open", "archive written with %s does not open: %r" % (fam, e), error=type(e).__name__)
+                return res
+            try:
+                names = z.getnames()
+                if names != want_names:
+                    viol("names_differ", "getnames", "written %r, listed %r" % (want_names, names))
+                fac = rw.make_factory()
+                z.extractall(factory=fac)
+                got = fac.result()
+                if got != want:
+                    missing = [n for n in want if n not in got]
+                    extra_ = [n for n in got if n not in want]
+                    diff = [n for n in want if n in got and got[n] != want[n]]
+                    kind = "missing" if missing else ("extra" if extra_ else "bytes_differ")
+                    viol("content_differs", "extractall(factory)", "missing=%r extra=%r differing=%r (lens want %r got %r)" % (
+                        missing[:3], extra_[:3], diff[:3], [len(want[n]) for n in diff[:3]], [len(got[n]) for n in diff[:3]]), kind=kind)
+                if any(len(d) for d in want.values()) and got == want:
+                    nontrivial = True
+                else:
+                    nontrivial = False
+                if case.get("path_extract") and _fs_safe(want_names) and case["target"] != "mv":
+                    z.reset()
+                    out = os.path.join(driver.worker_scratch(), "c01x")
+                    shutil.rmtree(out, ignore_errors=True)
+                    os.makedirs(out)
+                    try:
+                        z.extractall(path=out)
+                        for n, d in model:
+                            p = os.path.join(out, n)
+                            try:
+                                with open(p, "rb") as f:
+                                    b = f.read()
+                            except OSError as e:
+                                viol("content_differs", "extractall(path)", "member %r not on disk: %r" % (n, e), kind="missing")
+                                break
+                            if b != d:
+                                viol("content_differs", "extractall(path)", "member %r differs on disk (%d vs %d bytes)" % (n, len(b), len(d)), kind="bytes_differ")
+                                break
+                        res["probes"]["path_extract"] = 1
+                    finally:
+                        shutil.rmtree(out, ignore_errors=True)
+            except Exception as e:
+                viol("read_failed", "read", "archive written with %s fails on read: %r" % (fam, e), error=type(e).__name__)
+                nontrivial = False
+            finally:
+                try:
+                    z.close()
+                except Exception:
+                    pass
+        finally:
+            closer()
+    state["image"] = image
+    state["nontrivial"] = nontrivial
 
 
 def _mv_session(py7zr, mv, sess):
